@@ -297,6 +297,26 @@ PROPS.update({
     ),
 })
 
+PROPS.update({
+    'C18': dict(
+        level='proof',
+        level_text='Rocq theorems about faithful models of get_ordered_terminals / get_terminal_index_function (the numbering used by scanner, '
+                   'lookahead automata and LR table) and of the lookup in build_production_model: the ordered table never lists a terminal '
+                   'twice, every occurrence has exactly one index, and the repaired production-table lookup agrees with it for all grammars '
+                   '(C18_index_of_pm_fixed_agree); the pinned lookup confused terminals with equal text and different quoting style '
+                   '(C18_index_of_pm_refuted). Tie to the code: the proved terminal_agreement_check is applied to the real terminal table '
+                   'and the terminal indices in the real export model\'s productions, for grammars that mix ".."/\'..\'//../ and '
+                   'look-ahead variants of equal text.',
+        level_note='Trusted: Coq kernel, extraction, OCaml driver, Rust harness (export model read through its JSON form). The third lookup '
+                   '(grammar_type_generator, by expanded text only; C18_index_of_gt_refuted) only selects names and is not checked here.',
+        technique='Rocq proof (terminal table and lookups) + proved agreement checker on the real export model',
+        streams=[dict(cmd='c18', quick=1500, thorough=60000)],
+        rule='PAR grammars over a pool of 15 terminal spellings with equal texts in different quoting styles and look-ahead variants; '
+             'non-trivial = the table contains two terminals with equal text but different kind or look-ahead; distinct = distinct case text',
+        explanation='D8 repaired by a fix: commit.',
+    ),
+})
+
 import lschecks
 
 PROPS.update({
@@ -378,5 +398,37 @@ PROPS.update({
              'LALR conflict warning / fine, each spawned analysis slow (finishes after all later edits) or fast (finishes before the next '
              'edit); non-trivial = history with >= 2 versions; distinct = distinct case text',
         explanation='Known finding D11: a slow analysis of an old version publishes last.',
+    ),
+    'C24': dict(
+        level='proof',
+        level_text='Rocq: in the faithful model of left_factor with the hash-map iteration orders as oracle parameters, the result DOES depend '
+                   'on the oracle at the pinned commit (C24_find_prefix_order_refuted, C24_lf_order_refuted: tie between equally large '
+                   'prefix groups) while the language never does (C24_lf_order_indep_lang); the minimisation of lookahead automata '
+                   'preserves the predicted production for every iteration order (C07). Tie to the code: the real parol binary is run '
+                   'in several separate processes (each with its own hash seed) on tie-rich generated grammars and the repository\'s '
+                   'grammars; parser source, trait source and expanded grammar must be byte-identical.',
+        level_note='Trusted: the Python driver (process spawning, byte comparison). The theorems are about the pinned model of left factoring '
+                   '(they document why the tie-break had to be fixed); determinism of the repaired code is established by the '
+                   'multi-process exploration, not by a theorem over all grammars.',
+        technique='Rocq refutation/partial proof on the oracle-parameterised model + multi-process byte comparison of the real generator output',
+        custom=lschecks.c24,
+        rule='grammars with 2-4 equally sized groups of alternatives sharing a first symbol (ties), plus repository grammars; each generated '
+             'in 5 (thorough: 12) separate processes; non-trivial = tie grammar or grammar whose expansion introduces Suffix non-terminals; '
+             'distinct = distinct grammar text',
+        explanation='D3 (HashMap order decided ties in find_prefix / group_by) repaired by a fix: commit.',
+    ),
+    'C25': dict(
+        level='exploration',
+        level_text='Exploration through parol\'s real functions: obtain_grammar_config_from_string -> render_par_string -> '
+                   'obtain_grammar_config_from_string, before and after check_and_transform_grammar, on repository grammars and generated '
+                   'texts covering declarations and annotation combinations (user types, clipping, member names, scanner states, look-ahead, '
+                   '%skip, %on, %allow_unmatched); the two GrammarConfig values must be equal (source locations ignored). The Rocq side '
+                   '(Gen2/ParRender.v, scanner-directive sub-language) is a partial model only; it does not decide the property.',
+        level_note='The production syntax of PAR is not modelled in Rocq; the check is differential exploration with parol as its own oracle.',
+        technique='exploration: real render/parse round trip compared field by field (partial Rocq model of the directive sub-language)',
+        custom=lschecks.c25, no_coq=True,
+        rule='repository .par files (80 / all) + 300 (3000) generated annotated grammars + 100 (1000) generated EBNF grammars; non-trivial = '
+             'text uses a non-default scanner setting or an annotation; distinct = distinct text',
+        explanation='D4 (%allow_unmatched not rendered) repaired by a fix: commit.',
     ),
 })
